@@ -501,6 +501,50 @@ pub fn families_c04(rng: &mut impl Rng, depth: usize) -> Vec<Case> {
             out.push(case("sentinel-one-output", a));
         }
     }
+    // sentinel aliases: non-zero block hash / outputs that vanish under a lossy fold (sums, weighted sums,
+    // packed limbs, products) of the six sentinel values, with a binding broken
+    for k in 0..24 {
+        let mut a = real.clone();
+        a.fee = F::ZERO;
+        let neg = |x: u64| -> u64 { (P - (x % P)) % P };
+        let (bh, o1, o2): ([u64; 4], u64, u64) = match k % 8 {
+            0 => ([1, P - 1, 0, 0], 0, 0),
+            1 => ([P - 2, 0, 0, 0], 1, 1),
+            2 => ([0, 0, P - 90, 0], 90, 0),
+            3 => {
+                let (x, y, z) = (rng.gen_range(1..P), rng.gen_range(1..P), rng.gen_range(1..P));
+                let s = ((x as u128 + y as u128 + z as u128) % P as u128) as u64;
+                ([x, y, z, neg(s)], 0, 0)
+            }
+            4 => {
+                let (x, y, z) = (rng.gen_range(1..P), rng.gen_range(1..P), rng.gen_range(1..P));
+                let (p1, p2) = (rng.gen_range(1..1000u64), rng.gen_range(1..1000u64));
+                let s = ((x as u128 + y as u128 + z as u128 + p1 as u128 + p2 as u128) % P as u128) as u64;
+                ([x, y, z, neg(s)], p1, p2)
+            }
+            5 => ([0, rng.gen_range(1..P), rng.gen_range(1..P), rng.gen_range(1..P)], 0, 0), // product of limbs is zero
+            6 => ([rng.gen_range(1..P), rng.gen_range(1..P), rng.gen_range(1..P), rng.gen_range(1..P)], 0, 7), // product with outputs zero
+            _ => {
+                // a - b + c - d = 0
+                let (x, y, z) = (rng.gen_range(1..1u64 << 62), rng.gen_range(1..1u64 << 62), rng.gen_range(1..1u64 << 62));
+                ([x, y, z, ((x as u128 + P as u128 - y as u128 + z as u128) % P as u128) as u64], 0, 0)
+            }
+        };
+        a.input = f(2000);
+        a.out1 = f(o1);
+        a.out2 = f(o2);
+        a.recompute(false);
+        a.block_hash = [f(bh[0]), f(bh[1]), f(bh[2]), f(bh[3])];
+        match k % 3 {
+            0 => a.nullifier = rand_d4(rng),
+            1 => a.parent = rand_d4(rng),
+            _ => {
+                a.root = rand_d4(rng);
+                a.hdr_root = a.root;
+            }
+        }
+        out.push(case("sentinel-alias", a));
+    }
     // flag pinned by the prover
     for v in [0u64, 1, 2, P - 1] {
         let mut a = real.clone();
